@@ -6,6 +6,9 @@ cd /verif
 if ! git -C /repo diff --quiet; then echo "run_seed: /repo is not clean"; exit 2; fi
 git -C /repo apply "$P" || { echo "run_seed: patch does not apply to /repo"; exit 2; }
 trap 'git -C /repo checkout -q -- .' EXIT
+# replay files of a deliberately broken tree do not belong among /verif/replays
+export VERIF_REPLAY_DIR=/tmp/run_seed.replays
+export VERIF_EVIDENCE_DIR=/tmp/run_seed.evidence
 for id in "$@"; do
   ./check "$id" --tier "${TIER:-quick}" ${BUDGET:+--budget $BUDGET} > /tmp/run_seed.$id.log 2>&1; rc=$?
   echo "== $id exit=$rc $(grep -c '^VIOLATION' /tmp/run_seed.$id.log) violation line(s)"
